@@ -209,7 +209,7 @@ def operator_mix():
 
 def run_shard(rec):
     quick = rec.tier == 'quick'
-    rec.deadline = time.time() + (60 if quick else 900)
+    rec.deadline = time.time() + (300 if quick else 900)
     styles = style_catalogue()
     maxlen = 4 if quick else 5
     idx = 0
